@@ -196,21 +196,22 @@ class TokNumber(Token):
     # so we don't have to jump through hoops to recreate it later.
     @property
     def value(self):
-        if b'x' in self._data:
-            if b'.' in self._data:
-                integer, frac = self._data.split(b'.')
+        data = self._data.lower()
+        if b'x' in data:
+            if b'.' in data:
+                integer, frac = data.split(b'.')
                 return (
-                    float(int(integer, 16)) +
+                    float(int(integer[2:] or b'0', 16)) +
                     float(int(frac, 16))/(16**len(frac)))
-            return float(int(self._data, 16))
-        if b'b' in self._data:
-            if b'.' in self._data:
-                integer, frac = self._data.split(b'.')
+            return float(int(data, 16))
+        if b'b' in data:
+            if b'.' in data:
+                integer, frac = data.split(b'.')
                 return (
-                    float(int(integer, 2)) +
+                    float(int(integer[2:] or b'0', 2)) +
                     float(int(frac, 2))/(2**len(frac)))
-            return float(int(self._data, 2))
-        return float(self._data)
+            return float(int(data, 2))
+        return float(data)
 
 
 class TokName(Token):
